@@ -11,7 +11,8 @@ open Irismod.Sdk Irismod.GoSem
 
 theorem service_all_translated : Irismod.Gen.PureService.untranslated = [] := rfl
 theorem service_translated_pinned :
-    Irismod.Gen.PureService.translated = ["AddEarnedFee_taxAmount_1", "Slash_slashedAmt_1"] := rfl
+    Irismod.Gen.PureService.translated = ["AddEarnedFee_taxAmount_1(coin,taxRate)",
+     "Slash_slashedAmt_1(depositAmt,slashFraction)"] := rfl
 
 /-- `LegacyNewDecFromInt(n).Mul(r).TruncateInt()` with the library's range checks, on a non-negative amount and
 rate: the service model's `mulTrunc` whenever the two checks pass (they do for every amount below 2^196 and rate ≤ 1:
